@@ -152,6 +152,13 @@ theorem sketch_append_regs (p k k' : Nat) (A B : List Nat) :
     rw [List.filter_append, List.foldl_append]
     exact foldl_umax_init _ _ _
 
+/-- the sketch of a concatenation is the merge of the sketches -/
+theorem sketch_merge (p k : Nat) (A B : List Nat) :
+    (sketch p k A).merge (sketch p k B) = .ok (sketch p k (A ++ B)) := by
+  rw [merge_eq_ok _ _ (by simp [sketch]) (by simp [sketch, H.empty]), ← sketch_append_regs]
+  congr 1
+  apply H.ext' <;> simp [sketch]
+
 /-! ### save / load -/
 
 theorem load_save (s : H) (hp : s.p < 64) (hq : s.q < 256) (hk : s.ksize < 256)
